@@ -489,13 +489,15 @@ fn main() {
     let budget = Duration::from_secs(args.get_u64("secs", args.by_tier(8, 100)));
     let start = Instant::now();
     let lanes = if is_miri() { 1 } else { args.get_u64("lanes", 8) };
+    // a floor on the work per lane, so that a loaded machine makes the run longer rather than thinner
+    let min_rounds = args.get_u64("min_rounds", args.by_tier(150, 1500));
     std::thread::scope(|s| {
         for lane in 0..lanes {
             let (rep, args, bounds) = (&rep, &args, &bounds);
             s.spawn(move || {
                 let mut rng = Rng::derive(args.seed, lane + 100 * args.get_u64("variant", 0));
                 let mut rounds = 0;
-                while (start.elapsed() < budget || rounds < 3) && rep.violation_count() == 0 {
+                while (start.elapsed() < budget || rounds < if is_miri() { 3 } else { min_rounds }) && rep.violation_count() == 0 {
                     rounds += 1;
                     rep.eval();
                     if !run_random(&mut rng, bounds, rep) || !windows_history(&mut rng, bounds, rep) {
